@@ -3,7 +3,9 @@
 _BASE_EXPL = ("in-process differential: `jq::eval` vs `eval_generic::eval_with_cursor` on grammar-generated programs "
               "(depth 1-4) x generated inputs (duplicate keys, edge numbers, non-ASCII); implementation-vs-implementation "
               "disagreement is reported as EVALS-DISAGREE (always a violation); for programs inside the Lean model's fragment "
-              "the common answer is additionally compared with the model's run line (coverage.in_fragment_rate)")
+              "the common answer is additionally compared with the model's run line (coverage.in_fragment_rate); "
+              "plus an order class: order-sensitive programs (sort, unique, min, max, group_by, < >) on arrays of objects over "
+              "one key set with permuted insertion orders, where only the model comparison can see a wrong shared comparator")
 
 
 def _verdict(req, impl, model):
